@@ -208,8 +208,10 @@ impl Sim {
             "pay" => {
                 let b = p["bolt11"].as_str().unwrap_or("");
                 let inv = self.inv_index.get(b).copied().unwrap_or(0);
+                // (a string that only parses after case folding still names its hash: what is paid is then known)
                 let hash = b
                     .parse::<lightning_invoice::Bolt11Invoice>()
+                    .or_else(|_| b.to_lowercase().parse::<lightning_invoice::Bolt11Invoice>())
                     .map(|i| {
                         use secp256k1::hashes::Hash;
                         cat::hash_name(&i.payment_hash().to_byte_array())
